@@ -543,7 +543,7 @@ Proof.
       * change ((b ++ c) :: (b2 ++ c) :: map (fun buf : bytes => buf ++ c) sr)
           with (map (fun buf : bytes => buf ++ c) (b :: b2 :: sr)).
         apply (nth_map_default (fun buf : bytes => buf ++ c) (b :: b2 :: sr) t [] []). lia.
-  - destruct Hh as (Lh & Hn). set (h := c :: c2 :: hr) in *.
+  - destruct Hh as (Lh & Hn). unfold bytes in *. set (h := c :: c2 :: hr) in *.
     assert (Q : forall st', length st' = n -> hunk_okP n (map2 (@app N) st' h)
                 /\ hunk_term t (map2 (@app N) st' h) = nth t st' [] ++ nth t h []).
     { intros st' L. assert (Lm : length (map2 (@app N) st' h) = n) by (rewrite map2_length; lia).
@@ -591,7 +591,8 @@ Proof.
         (negb (is_resolved a && is_resolved b) && no_adjacent_resolved (b :: acc')) in H.
     apply Bool.andb_true_iff in H. destruct H as (H1 & H2). rewrite H1. cbn [andb].
     apply IH; [assumption|]. destruct E as [[E|E]|E]; [discriminate| |right; assumption].
-    left. right. now rewrite last_cons_last in E |- *.
+    left. right. rewrite last_cons_last in E. rewrite last_cons_last.
+    change (last (b :: acc') a) with (last (b :: acc') a) in E. now rewrite last_cons_last in E.
 Qed.
 
 Lemma collect_hunks_go_spec n t st : Forall (hunk_okP n) st -> forall buf acc,
@@ -634,3 +635,49 @@ Proof.
       * cbn [app]. now rewrite <- !app_assoc.
       * rewrite map_app, concat_app. cbn [map concat hunk_term]. rewrite app_nil_r. now rewrite <- !app_assoc.
 Qed.
+
+Section Shape2.
+  Variable M : list bytes -> list bytes -> list (nat * nat).
+  Hypothesis M_valid : forall a b, valid_matching (length a) (length b) (M a b).
+
+  Theorem conflict_shape accept word terms hs :
+    Nat.odd (length terms) = true ->
+    merge_hunks M accept word terms = Conflict hs ->
+    Forall (chunk_ok (length terms)) hs
+    /\ no_adjacent_resolved hs = true
+    /\ forall t, t < length terms ->
+         concat (map (hunk_term t) hs) = nth t (merge M accept word terms) [].
+  Proof.
+    intros Ho Hc. unfold merge_hunks, merge in *. set (st := merge_stream M accept word terms) in *.
+    set (n := length terms) in *.
+    assert (Hn : 1 <= n) by (unfold n; destruct terms; [discriminate Ho|cbn; lia]).
+    assert (SL : Forall (hunk_okP n) st).
+    { pose proof (stream_lengths M M_valid accept word terms Ho) as SL. fold st in SL. fold n in SL.
+      eapply Forall_impl; [|exact SL]. intros h [H|H]; destruct h as [|a [|b r]]; cbn [hunk_okP length] in *; auto; lia. }
+    pose proof (collect_hunks_spec st) as CH. rewrite Hc in CH.
+    unfold collect_hunks in Hc.
+    assert (Sp : forall t, let '(buf', acc') := collect_hunks_go st [] [] in
+                 let hs0 := if is_nil buf' then acc' else acc' ++ [[buf']] in
+                 Forall (chunk_ok n) hs0 /\ no_adjacent_resolved hs0 = true
+                 /\ concat (map (hunk_term t) hs0) = concat (map (hunk_term t) st)).
+    { intros t. pose proof (collect_hunks_go_spec n t st SL [] []) as Q.
+      destruct (collect_hunks_go st [] []) as [buf' acc']. apply Q; [constructor|reflexivity|now left]. }
+    destruct (collect_hunks_go st [] []) as [buf' acc'] eqn:Eg.
+    destruct acc' as [|a0 at0]; [discriminate Hc|]. injection Hc as <-.
+    pose proof (Sp 0) as S0. cbv zeta in S0. destruct S0 as (S1 & S2 & _).
+    split; [exact S1|]. split; [exact S2|].
+    intros t Ht. pose proof (Sp t) as St. cbv zeta in St. destruct St as (_ & _ & St).
+    etransitivity; [exact St|].
+    destruct (collect_merged_terms n t st Ht SL [[]] I) as (A & B). cbn [hunk_term app] in B.
+    fold (collect_merged st) in A, B. rewrite <- B.
+    (* the merged result is not a singleton, since some hunk is unresolved *)
+    destruct (collect_merged_length n st Hn (stream_lengths M M_valid accept word terms Ho) [[]]) as (_ & D);
+      [now left|]. cbv zeta in D. fold (collect_merged st) in D.
+    destruct (collect_merged st) as [|x [|y z]] eqn:Em; cbn [hunk_term]; [reflexivity| |reflexivity].
+    - exfalso. destruct (proj1 D eq_refl) as [(_ & Q)|Q]; [congruence|].
+      (* n = 1: every hunk is a singleton, so all are resolved *)
+      assert (allres st = true); [|congruence].
+      apply forallb_forall. intros h Hh. rewrite Forall_forall in SL. specialize (SL h Hh).
+      destruct h as [|a [|b r]]; cbn [hunk_okP] in SL; try reflexivity; lia.
+  Qed.
+End Shape2.
